@@ -240,7 +240,7 @@ func c33Phase2(tx *TxSpec, p Params, coll In) {
 // c33Decode decodes the transaction and applies IsValid=false (Conway: the
 // envelope flag; Dijkstra: as the block decoder does, from the invalid list).
 func c33Decode(tx *TxSpec, invalid bool) (ledger.Transaction, []byte, error) {
-	tx.Invalid = invalid && tx.Era == Conway
+	tx.Invalid = invalid && tx.Era != Dijkstra
 	raw, _ := tx.Encode()
 	dtx, err := decodeTx(tx.Era, raw)
 	if err != nil {
@@ -334,7 +334,7 @@ func c33Eval(rec *evi.Recorder, where string, c *Case, dtx ledger.Transaction, r
 	if want.Kind == c33Unspecified {
 		rec.Class(fmt.Sprintf("%s:unspecified(%s):%s:lib_%s", where, want.Why, pvBand(pv), gotRule.Class))
 	} else if d := c33Judge(want, gotRule); d != "" {
-		key := fmt.Sprintf("C33:rule:%s:%s:valid=%v:%s:want-%s:%s", ppKind, pvBand(pv), isValid, kind, want.Kind, d)
+		key := fmt.Sprintf("C33:rule:%s-tx:%s-pp:%s:valid=%v:%s:want-%s:%s", era, ppKind, pvBand(pv), isValid, kind, want.Kind, d)
 		report(key, fmt.Sprintf("conway.UtxoValidateWithdrawals on a %s transaction with %s parameters at PV%d (IsValid=%v, state %s): want %s (%s), got %s %s",
 			era, ppKind, pv, isValid, kind, want.Kind, want.Why, gotRule.Class, gotRule.Err), caseObj("rule", gotRule))
 	}
@@ -357,7 +357,7 @@ func c33Eval(rec *evi.Recorder, where string, c *Case, dtx ledger.Transaction, r
 		return
 	}
 	if d := c33Judge(want, gotFull); d != "" {
-		key := fmt.Sprintf("C33:full:%s:%s:%s:valid=%v:%s:want-%s:%s", era, ppKind, pvBand(pv), isValid, kind, want.Kind, d)
+		key := fmt.Sprintf("C33:full:%s-rules:%s-pp:%s:valid=%v:%s:want-%s:%s", era, ppKind, pvBand(pv), isValid, kind, want.Kind, d)
 		report(key, fmt.Sprintf("VerifyTransaction(%s rule list) with %s parameters at PV%d (IsValid=%v, state %s): want %s (%s), got %s %s",
 			era, ppKind, pv, isValid, kind, want.Kind, want.Why, gotFull.Class, gotFull.Err), caseObj("full", gotFull))
 	}
